@@ -82,6 +82,9 @@ pub enum Act {
     InboundPending { p: u8 },
     InboundEstablished { id: usize },
     InboundVanish { id: usize },
+    /// the inbound connection is negotiated and reported, but the transport's `accept()` call itself returns an error
+    /// (the connection was dropped between the report and the call): the manager has to roll everything back
+    InboundEstablishedAcceptFails { id: usize },
     AcceptDone { id: usize },
     Close { id: usize },
     /// the monitor protocol returns from `run()` (its `TransportService` is dropped)
@@ -142,6 +145,7 @@ fn act_kind(a: &Act) -> &'static str {
         Act::InboundPending { .. } => "InboundPending",
         Act::InboundEstablished { .. } => "InboundEstablished",
         Act::InboundVanish { .. } => "InboundVanish",
+        Act::InboundEstablishedAcceptFails { .. } => "InboundEstablishedAcceptFails",
         Act::AcceptDone { .. } => "AcceptDone",
         Act::Close { .. } => "Close",
         Act::MonitorExit => "MonitorExit",
@@ -207,6 +211,8 @@ pub struct Sys {
     inbound_pending: BTreeMap<usize, u8>,
     inbound_nego: BTreeMap<usize, u8>,
     est_wait: BTreeMap<usize, (u8, Endpoint)>,
+    /// connections whose `accept()` call was scripted to fail
+    accept_call_fails: BTreeSet<usize>,
     accept_wait: BTreeMap<usize, (u8, Endpoint)>,
     /// ground truth: connections whose accept future completed Ok and that were not closed (id → (peer, inbound))
     kept: BTreeMap<usize, (u8, bool)>,
@@ -377,6 +383,19 @@ impl MgrModel {
                     }
                 }
                 Call::Accept { id } => match sys.est_wait.remove(&id) {
+                    Some((p, _)) if sys.accept_call_fails.remove(&id) => {
+                        // the call returned an error: the connection never existed for anybody; attempts that were
+                        // cancelled in favour of it are left without any outcome (same class as a failed accept future)
+                        if !sys.accepted.values().any(|(q, _)| *q == p) {
+                            for at in sys.attempts.values_mut() {
+                                if at.peer == p && at.outcome == Some(Outcome::Superseded) {
+                                    at.outcome = None;
+                                    at.superseded_check = false;
+                                    at.last_call = "cancel-then-accept-rolled-back";
+                                }
+                            }
+                        }
+                    }
                     Some((p, ep)) => {
                         sys.tr_of.insert(id, t);
                         let inbound = ep.is_listener();
@@ -675,6 +694,7 @@ impl Model for MgrModel {
             inbound_pending: BTreeMap::new(),
             inbound_nego: BTreeMap::new(),
             est_wait: BTreeMap::new(),
+            accept_call_fails: BTreeSet::new(),
             accept_wait: BTreeMap::new(),
             kept: BTreeMap::new(),
             accepted: BTreeMap::new(),
@@ -728,6 +748,7 @@ impl Model for MgrModel {
         for id in sys.inbound_nego.keys() {
             v.push(Act::InboundEstablished { id: *id });
             v.push(Act::InboundVanish { id: *id });
+            v.push(Act::InboundEstablishedAcceptFails { id: *id });
         }
         for id in sys.kept.keys() {
             v.push(Act::Close { id: *id });
@@ -878,6 +899,15 @@ impl Model for MgrModel {
             }
             Act::InboundVanish { id } => {
                 sys.inbound_nego.remove(id);
+            }
+            Act::InboundEstablishedAcceptFails { id } => {
+                let p = sys.inbound_nego.remove(id).expect("enabled");
+                let address: Multiaddr = format!("/ip4/10.9.{p}.9/tcp/{}", 40000 + *id).parse().unwrap();
+                let ep = Endpoint::Listener { address, connection_id: ConnectionId::from(*id) };
+                sys.est_wait.insert(*id, (p, ep.clone()));
+                sys.accept_call_fails.insert(*id);
+                sys.node.script.0.lock().fail_accept_call.push(*id);
+                sys.node.script.emit(TransportEvent::ConnectionEstablished { peer: peer(p), endpoint: ep });
             }
             Act::AcceptDone { id } => {
                 let (p, ep) = sys.accept_wait.remove(id).expect("enabled");
